@@ -356,7 +356,11 @@ def monitorC05 (script : List Cmd) (iters : List Iter) (d : Nat) : Option String
             | .srv _ _ _ h => ds.any fun x => live x && (x.r.ty == 1 || x.r.ty == 28) && lower x.r.name == lower h
             | _ => false
           if ptrLive && !srvs.isEmpty && addrLive && !ifaceChange then
-            some s!"removed-while-PTR-SRV-and-address-live inst={hexOfBytes f} t={t}"
+            -- known finding D43: an instance with several live SRV records (different targets):
+            -- the daemon looks at the first usable one only
+            let targets := (srvs.map fun s => s.r.rdata).eraseDups
+            if targets.length ≥ 2 then some s!"removed-while-another-SRV-and-its-address-live inst={hexOfBytes f} t={t}"
+            else some s!"removed-while-PTR-SRV-and-address-live inst={hexOfBytes f} t={t}"
           else none
         | _, _ => some "unparsable-removed-event"
       | _ => none
@@ -440,7 +444,12 @@ def monitorC17 (script : List Cmd) (iters : List Iter) (d : Nat) : Option String
                 ipOf x.r == some a.ip && decide (t ≤ validUntil ds x k) &&
                 a.ifs.all fun ((_, idx) : BList × Nat) => ds.any fun y => y.k ≤ k && y.ifi == idx && sameKey y.r x.r)
           match bad with
-          | some a => some s!"AddressesFound-lists-address-not-live-or-wrong-interface ip={hexOfBytes a.ip} t={t}"
+          | some a =>
+            -- known finding D44: on an iteration that the scheduler ran late (the script moved the
+            -- clock by hand) an address that ran out meanwhile is listed once more before it is removed
+            if script.any (fun c => match c with | .now _ => true | _ => false) then
+              some s!"AddressesFound-lists-expired-address-on-late-iteration ip={hexOfBytes a.ip} t={t}"
+            else some s!"AddressesFound-lists-address-not-live-or-wrong-interface ip={hexOfBytes a.ip} t={t}"
           | none => if addrs.isEmpty then some "AddressesFound-empty" else none
         else
           -- some record of that address must have run out by now
